@@ -193,6 +193,26 @@ def ghost_pred(name, *args):
     return bool(GHOST[name](*args))
 
 
+def ghost_key(name, kname, *args):
+    """ghost function whose result is a key of class `kname` (native: supplied by the replay harness)"""
+    return GHOST[name](*args)
+
+
+def map_at(m, k):
+    """total read of a dict for specs: m[k] where present (unspecified otherwise; use under `k in m`)"""
+    return m.get(k, k)
+
+
+def rel_in(m, k):
+    """k is a key of the dict-of-sets m"""
+    return k in m
+
+
+def rel_has(m, k, e):
+    """k is a key of the dict-of-sets m and e is in m[k]"""
+    return k in m and e in m[k]
+
+
 KEY_UNIVERSE = []
 """finite universe of keys for the native meaning of `forall_keys`: the replay harness fills it with
 every key occurring in the inputs plus a few extra"""
